@@ -1,5 +1,7 @@
 import Poly.Proofs.MerkleTree
 import Poly.Proofs.MerkleServe
+import Poly.Proofs.MerkleStore
+import Poly.Proofs.MerkleComplete
 /-!
 # C06 — Block-hash accumulator is a correct append-only Merkle tree
 
@@ -9,7 +11,7 @@ All statements hold for every hash function `H` and every append sequence `D` (n
 the Go code uses `uint32` sizes, the correspondence covers sizes below 2^31).
 -/
 namespace Poly.Props.C06
-open Poly.Spec.RFC6962 Poly.Model.Merkle Poly.Proofs.MerkleTree
+open Poly.Spec.RFC6962 Poly.Model.Merkle Poly.Proofs.MerkleTree Poly.Proofs.MerkleStore Poly.Proofs.MerkleComplete
 
 variable (H : List UInt8 → List UInt8)
 
@@ -75,6 +77,142 @@ theorem predicted_root (D xs : List (List UInt8)) (st : Option HashStore) (s : S
     rw [inv_root H _ _ hic, inv_root H _ _ hi']
   · unfold getRootWithNewLeaves; rw [hc]; simp only
     rw [inv_root H _ _ hic]; simp
+
+
+/-! ### Frontier and store in RFC terms, generators, reload, marshal -/
+
+/-- A fresh store of either kind (memory / file). -/
+def freshStore (isFile : Bool) : Option HashStore := some ⟨isFile, [], []⟩
+
+/-- After appending `D` to the empty tree: the frontier is `frontier` (the roots of the maximal perfect
+subtrees of the binary decomposition of `|D|`, largest first) and the hash store holds `postorder` (the
+post-orders of those subtrees, i.e. every node in the order it was completed). -/
+theorem store_postorder (D : List (List UInt8)) (isFile : Bool) (s : State)
+    (h : State.appendAll H ⟨emptyTree, freshStore isFile⟩ D = .ok s) :
+    s.tree.hashes = frontier H (D.map (hashLeaf H)) ∧
+    ∃ st, s.store = some st ∧ st.hashes = postorder H (D.map (hashLeaf H)) ∧ st.isFile = isFile := by
+  obtain ⟨s', h', hi⟩ := sinv_appendAll H D [] ⟨emptyTree, freshStore isFile⟩
+    (sinv_empty H _ (by intro x hx; simp [freshStore] at hx; subst hx; rfl))
+  rw [h] at h'; cases h'
+  simp only [List.nil_append] at hi
+  refine ⟨hi.2.1, ?_⟩
+  -- the store is still there and of the same kind
+  have hk : ∀ (D : List (List UInt8)) (s0 s1 : State) (st0 : HashStore), s0.store = some st0 →
+      State.appendAll H s0 D = .ok s1 → ∃ st1, s1.store = some st1 ∧ st1.isFile = st0.isFile := by
+    intro D
+    induction D with
+    | nil => intro s0 s1 st0 h0 h1; simp [State.appendAll] at h1; subst h1; exact ⟨st0, h0, rfl⟩
+    | cons d D ih =>
+      intro s0 s1 st0 h0 h1
+      simp only [State.appendAll] at h1
+      cases ha : s0.append H d with
+      | error e => simp [ha] at h1
+      | ok r =>
+        obtain ⟨sa, au⟩ := r
+        simp only [ha] at h1
+        have hsa : sa.store = some (st0.put (match appendLeaf H s0.tree d with | .ok (_, st, _) => st | .error _ => [])) := by
+          unfold State.append at ha
+          cases hl : appendLeaf H s0.tree d with
+          | error e => simp [hl] at ha
+          | ok q =>
+            obtain ⟨t, st, audit⟩ := q
+            simp only [hl, Except.ok.injEq, Prod.mk.injEq] at ha
+            rw [← ha.1]; simp [h0]
+        obtain ⟨st1, e1, e2⟩ := ih sa s1 _ hsa h1
+        exact ⟨st1, e1, by rw [e2]; rfl⟩
+  obtain ⟨st1, e1, e2⟩ := hk D _ s _ rfl h
+  exact ⟨st1, e1, hi.2.2 st1 e1, by rw [e2]⟩
+
+/-- The fold of that frontier is the RFC 6962 root (second, independent route to `root_eq_mth`). -/
+theorem frontier_fold_eq_mth (L : List Hash) (hL : L ≠ []) : hashFold H (frontier H L) = .ok (mth H L) :=
+  hashFold_frontier H L hL
+
+/-- `InclusionProof(m, n)` for any leaf of any EARLIER tree size `n ≤ |D|` is the RFC 6962 audit path
+`PATH(m, D[0:n])`, read back from the store by position. -/
+theorem inclusion_gen_correct (D : List (List UInt8)) (isFile : Bool) (s : State) (m n : Nat)
+    (h : State.appendAll H ⟨emptyTree, freshStore isFile⟩ D = .ok s) (hm : m < n) (hn : n ≤ D.length) :
+    inclusionProof H s m n = .ok (path H m ((D.map (hashLeaf H)).take n)) := by
+  obtain ⟨s', h', hi⟩ := sinv_appendAll H D [] ⟨emptyTree, freshStore isFile⟩
+    (sinv_empty H _ (by intro x hx; simp [freshStore] at hx; subst hx; rfl))
+  rw [h] at h'; cases h'
+  simp only [List.nil_append] at hi
+  obtain ⟨_, st, hst, _, _⟩ := store_postorder H D isFile s h
+  exact inclusionProof_eq_path H _ s st m n hi hst hm (by simpa using hn)
+
+/-- The node's own verifier accepts the RFC 6962 audit path of every leaf of every tree. -/
+theorem verify_inclusion_complete (L : List Hash) (m : Nat) (x : Hash) (hx : L[m]? = some x) :
+    verifyLeafHashInclusion H x m (path H m L) (mth H L) L.length = .ok () :=
+  verifyInclusion_complete H L m x hx
+
+/-- Hence: the inclusion proof generated for any leaf `m` of any earlier size `n` is accepted by
+`VerifyLeafHashInclusion` against the root of the first `n` leaves. -/
+theorem generated_inclusion_accepted (D : List (List UInt8)) (isFile : Bool) (s : State) (m n : Nat)
+    (h : State.appendAll H ⟨emptyTree, freshStore isFile⟩ D = .ok s) (hm : m < n) (hn : n ≤ D.length) :
+    ∃ p x, inclusionProof H s m n = .ok p ∧ (D.map (hashLeaf H))[m]? = some x ∧
+      verifyLeafHashInclusion H x m p (mth H ((D.map (hashLeaf H)).take n)) n = .ok () := by
+  have hlt : m < (D.map (hashLeaf H)).length := by simp; omega
+  refine ⟨_, _, inclusion_gen_correct H D isFile s m n h hm hn, List.getElem?_eq_getElem hlt, ?_⟩
+  have hx : ((D.map (hashLeaf H)).take n)[m]? = some ((D.map (hashLeaf H))[m]) := by
+    rw [List.getElem?_take_of_lt hm, List.getElem?_eq_getElem hlt]
+  have := verifyInclusion_complete H ((D.map (hashLeaf H)).take n) m _ hx
+  have hl : ((D.map (hashLeaf H)).take n).length = n := by simp; omega
+  rwa [hl] at this
+
+/-- `MerkleInclusionLeafPath(data, m, n)` for the `m`-th appended leaf verifies with `MerkleProve` against
+the root of the first `n` leaves and yields the leaf data. -/
+theorem leafpath_gen_verifies (hlen : HashLen H) (D : List (List UInt8)) (isFile : Bool) (s : State) (m n : Nat)
+    (data : List UInt8) (h : State.appendAll H ⟨emptyTree, freshStore isFile⟩ D = .ok s) (hm : m < n)
+    (hn : n ≤ D.length) (hd : D[m]? = some data) (hsz : data.length < 2 ^ 64) :
+    ∃ p, merkleInclusionLeafPath H s data m n = .ok p ∧
+      merkleProve H p (mth H ((D.map (hashLeaf H)).take n)) = .ok data := by
+  obtain ⟨s', h', hi⟩ := sinv_appendAll H D [] ⟨emptyTree, freshStore isFile⟩
+    (sinv_empty H _ (by intro x hx; simp [freshStore] at hx; subst hx; rfl))
+  rw [h] at h'; cases h'
+  simp only [List.nil_append] at hi
+  obtain ⟨_, st, hst, _, _⟩ := store_postorder H D isFile s h
+  exact leafPath_gen_verifies H hlen _ s st data m n hi hst hm (by simpa using hn)
+    (by rw [List.getElem?_map, hd]; rfl)
+    (by intro y hy; obtain ⟨d, _, rfl⟩ := List.mem_map.mp hy; exact hlen _) hsz
+
+/-- Reload from the hash file: closing and reopening the file of the tree of `D` (even when the file is
+followed by stale hashes of a longer history) gives back exactly the store, so the reloaded tree
+`NewTree(size, frontier, reopened file)` answers every proof query as before. -/
+theorem reload (D : List (List UInt8)) (s : State) (tail : List Hash)
+    (h : State.appendAll H ⟨emptyTree, freshStore true⟩ D = .ok s) :
+    ∃ st, s.store = some st ∧ reopenFile (st.hashes ++ tail) s.tree.size = some ⟨true, st.hashes, tail⟩ ∧
+      newTree s.tree.size s.tree.hashes = .ok s.tree := by
+  obtain ⟨hf, st, hst, hpo, _⟩ := store_postorder H D true s h
+  obtain ⟨hsz, _, hc⟩ := frontier_inv H D _ s h
+  refine ⟨st, hst, ?_, ?_⟩
+  · rw [hpo, hsz]
+    have := reopenFile_ok H (D.map (hashLeaf H)) tail
+    simpa using this
+  · have : newTree s.tree.size s.tree.hashes = .ok ⟨s.tree.size, s.tree.hashes⟩ := by simp [newTree, hc, hsz]
+    rw [this]
+
+/-- Marshal round trip: `UnMarshal(Marshal(tree)) = tree` after any append sequence (sizes below 2^32),
+also when the buffer carries trailing bytes. -/
+theorem marshal_roundtrip (hlen : HashLen H) (D : List (List UInt8)) (st : Option HashStore) (s : State)
+    (rest : List UInt8) (h : State.appendAll H ⟨emptyTree, st⟩ D = .ok s) (hsz : D.length < 2 ^ 32) :
+    unmarshal (marshal s.tree ++ rest) = .ok s.tree := by
+  obtain ⟨h1, h2, h3⟩ := frontier_inv H D st s h
+  apply unmarshal_marshal
+  · omega
+  · rw [h3, h1]
+  · -- every frontier hash is a hash value
+    obtain ⟨s', h', hi, _⟩ := Poly.Proofs.MerkleTree.inv_appendAll H D [] ⟨emptyTree, st⟩ (inv_empty H)
+    rw [h] at h'; cases h'
+    obtain ⟨s2, h2', hi2⟩ := sinv_appendAll H D [] ⟨emptyTree, none⟩ (sinv_empty H _ (by simp))
+    obtain ⟨s3, h3', hi3, _⟩ := Poly.Proofs.MerkleTree.inv_appendAll H D [] ⟨emptyTree, none⟩ (inv_empty H)
+    rw [h2'] at h3'; cases h3'
+    have hsame : s.tree.hashes = s2.tree.hashes := by
+      have a := hi.2; have b := hi3.2
+      simp only [List.nil_append] at a b
+      have := a.trans b.symm
+      exact List.reverse_inj.mp this
+    rw [hsame, hi2.2.1]
+    intro y hy
+    exact frontier_len32 H hlen _ (by intro z hz; simp at hz; obtain ⟨d, _, rfl⟩ := hz; exact hlen _) y hy
 
 /-- The hypotheses are satisfiable: a concrete three-leaf history (with `H` the identity the root shows
 the RFC shape `1 ‖ (1 ‖ 0a ‖ 0b) ‖ 0c`). -/
